@@ -850,6 +850,106 @@ def check_lane_maps(ctx, u, methods):
     ctx.check(okc, R, 'draw_text_v|glyph-index', s, 'character clamped to the %d glyphs of the font' % rows, 'the glyph index is not confined to [0, %d) before font[ch] is read' % rows)
 
 
+def check_clamp_by_evaluation(ctx, u):
+    """C07-R8: clamp_blit_dimensions folded on a grid of canvas sizes, origins and extents; the area it
+    leaves must be the set of (dest pixel, source pixel) pairs of the per-pixel model"""
+    from peval import PEval, Ptr, Rec, Thrown, Undecided, Fault
+    R = 'C07-R8'
+    fs = [f for f in u.functions if f.get('name') == 'clamp_blit_dimensions' and body_of(f) is not None]
+    ctx.need(len(fs) == 1, 'clamp_blit_dimensions not found')
+    f = fs[0]
+    ps = params_of(f)
+    ctx.need(len(ps) == 8 and all('*' in (qtype(p) or '') for p in ps[2:]) and all('Image' in (qtype(p) or '') for p in ps[:2]), 'clamp_blit_dimensions signature changed')
+    PE = PEval([u])
+
+    def axis_model(D, S, x, w, sx):
+        return {(x + i, sx + i) for i in range(max(w, 0)) if 0 <= x + i < D and 0 <= sx + i < S}
+
+    def run(D, S, x, w, sx, vertical):
+        dest, src = PE.new_object('phosg::Image'), PE.new_object('phosg::Image')
+        if dest is None or src is None:
+            raise Undecided('Image object model')
+        other = (2, 2, 0, 2, 0)       # the other axis: a 2-pixel in-bounds strip
+        dims = ((D, other[0]), (S, other[1])) if not vertical else ((other[0], D), (other[1], S))
+        dest.f.update({'width': dims[0][0], 'height': dims[0][1]})
+        src.f.update({'width': dims[1][0], 'height': dims[1][1]})
+        cell = {'x': x if not vertical else other[2], 'y': other[2] if not vertical else x, 'w': w if not vertical else other[3], 'h': other[3] if not vertical else w,
+                'sx': sx if not vertical else other[4], 'sy': other[4] if not vertical else sx, '__parent__': None}
+        args = [dest, src] + [Ptr(cell, k, 'long') for k in ('x', 'y', 'w', 'h', 'sx', 'sy')]
+        PE.call_with(f, args)
+        a, e, so = ('x', 'w', 'sx') if not vertical else ('y', 'h', 'sy')
+        oa, oe, oso = ('y', 'h', 'sy') if not vertical else ('x', 'w', 'sx')
+        got_axis = {(cell[a] + i, cell[so] + i) for i in range(max(cell[e], 0))}
+        got_other = {(cell[oa] + i, cell[oso] + i) for i in range(max(cell[oe], 0))}
+        return got_axis, got_other
+    vals = (-3, -1, 0, 1, 2, 4)
+    n, bad, und = 0, None, None
+    for vertical in (False, True):
+        for D in (0, 1, 3):
+            for S in (0, 1, 3):
+                for x in vals:
+                    for sx in vals:
+                        for w in (-1, 0, 1, 2, 3, 6):
+                            if und or bad:
+                                continue
+                            try:
+                                ga, go = run(D, S, x, w, sx, vertical)
+                            except Thrown as e_:
+                                bad = 'throws %s' % e_.etype
+                                continue
+                            except Fault as e_:
+                                bad = 'faults (%s)' % e_
+                                continue
+                            except Undecided as e_:
+                                und = str(e_)
+                                continue
+                            n += 1
+                            want = axis_model(D, S, x, w, sx)
+                            want_o = {(0, 0), (1, 1)}
+                            got2d = {(p_, q_) for p_ in ga for q_ in go}
+                            want2d = {(p_, q_) for p_ in want for q_ in want_o}
+                            if got2d != want2d:
+                                ax = 'vertical' if vertical else 'horizontal'
+                                bad = '%s axis, dest size %d, source size %d, origin %d, extent %d, source origin %d: the clamped area copies %s; the pixels inside both canvases are %s' % (ax, D, S, x, w, sx, sorted(ga) if go else 'nothing', sorted(want))
+    if und:
+        ctx.undecided(R, 'clamp|grid', f, 'clamp_blit_dimensions could not be folded (%s)' % und)
+        return False
+    if bad:
+        ctx.bad(R, 'clamp|grid', f, 'clamp_blit_dimensions: ' + bad)
+        return False
+    ctx.ok(R, 'clamp|grid', f, 'on %d (axis, sizes, origins, extent) combinations the clamped area is exactly the set of pixel pairs inside both canvases (empty when there is none)' % n)
+    return True
+
+
+def check_swallow_granularity(ctx, u, methods):
+    R = 'C07-R7'
+    n = 0
+    for f in methods:
+        body = body_of(f)
+        if body is None:
+            continue
+        for t in walk(body):
+            if t.get('kind') != 'CXXTryStmt':
+                continue
+            ks = [c for c in kids(t) if c.get('kind')]
+            blk, handlers = ks[0], ks[1:]
+            px = [c for c in walk(blk) if c.get('kind') == 'CXXMemberCallExpr' and call_name(c) in ('write_pixel', 'read_pixel')]
+            if not px:
+                continue
+            # a handler that completes normally (no throw inside) swallows the exception
+            swallowing = [h for h in handlers if not any(x.get('kind') == 'CXXThrowExpr' for x in walk(h))]
+            if not swallowing:
+                continue
+            n += 1
+            loops = [x for x in walk(blk) if x.get('kind') in LOOPS]
+            key = '%s|try@%s' % (f.get('name'), t.get('_line'))
+            coords = {(canon(call_args(c)[0]), canon(call_args(c)[1])) for c in px if len(call_args(c)) >= 2}
+            ctx.check(not loops and len(coords) == 1, R, key, t, 'the swallowed exception guards the accesses of a single pixel',
+                      'in %s the try block whose handler swallows the out-of-canvas exception contains %s: the first clipped pixel abandons the rest of the block, so pixels that are inside the canvas are not drawn' % (f.get('name'), ('a loop over %d pixel access(es)' % len(px)) if loops else ('accesses to %d different pixels' % len(coords))))
+    if n == 0:
+        ctx.ok(R, 'no-swallowing-try', 'Image.cc', 'no try block swallows a pixel-access exception', nontrivial=False)
+
+
 def run(ctx):
     ctx.rule('C07-R1', 'raw pixel-buffer access (data.raw / data.asN) occurs only in the owner functions; every drawing / blit / transform function reaches pixels through read_pixel/write_pixel', 8)
     ctx.rule('C07-R2', 'in read_pixel/write_pixel every subscript is dominated by the four-way coordinate test, is (y*width+x)*(alpha?4:3)+k with k=3 only under has_alpha, and uses the asN matching channel_width', 34)
@@ -857,13 +957,23 @@ def run(ctx):
     ctx.rule('C07-R4', 'clamp_blit_dimensions: x/y symmetric, each trim adjusts origin / other origin / extent with the right signs, origins before extents, signed comparisons, negative extent collapses; fill_rect clips symmetrically', 10)
     ctx.rule('C07-R5', 'buffer/format consistency: a function that changes width/height/has_alpha/channel_width unconditionally commits a new buffer; every allocation has the invariant size for the format committed', 10)
     ctx.rule('C07-R6', 'lane maps: expand/compress_color inverse byte layouts; widen-then-narrow of every channel-width pair is the identity (E-BITS); abs resolves to the 64-bit overload; glyph indices stay inside the font table', 18)
+    ctx.rule('C07-R8', 'clamp_blit_dimensions by evaluation (E-TABLE): folded on a grid of canvas sizes (0, 1, 3), origins and source origins (-3..4) and extents (-1..6) on each axis, the area it leaves is exactly the set of (dest, source) pixel pairs inside both canvases', 1)
+    ctx.rule('C07-R7', 'clipping by catch is per pixel: a try block whose handler swallows the exception of an out-of-canvas pixel access contains one pixel access and no loop, so one clipped pixel never skips the pixels after it', 1)
     u = ctx.unit(repo_unit('Image.cc'))
     methods = image_methods(u)
     ctx.require(len(methods) >= 60, 'Image methods not found (%d)' % len(methods))
     check_confinement(ctx, u, methods)
     check_pixel_guard(ctx, u, methods)
     check_no_escape(ctx, u, methods)
-    check_clamp(ctx, u, methods)
+    r8 = [False]
+    with ctx.section('C07-R8', 'C07'):
+        r8[0] = check_clamp_by_evaluation(ctx, u)
+    if r8[0]:
+        ctx.defer({'C07-R4'}, 'C07-R8', only=lambda k_: not k_.startswith(('fill_rect', 'get_data_size')))
+    with ctx.section('C07-R4', 'C07'):
+        check_clamp(ctx, u, methods)
     check_buffer_format(ctx, u, methods)
+    with ctx.section('C07-R7', 'C07'):
+        check_swallow_granularity(ctx, u, methods)
     check_lane_maps(ctx, u, methods)
     ctx.note('resize_blit performs no clipping by design and is not in the property\'s list. Not decided: equality with the per-pixel model, clipping invariance, line geometry, blend arithmetic.')
